@@ -273,6 +273,13 @@ def generate_grammar(bnf_grammar: str, token_namespace) -> Grammar:
                         reserved_strings,
                         terminal_or_nonterminal
                     )
+                    if transition in dfa_state.transitions:
+                        # The same terminal written in two ways ('a' and "a").
+                        raise ValueError(
+                            "Rule %s is ambiguous; the terminal %s occurs "
+                            "twice in one state."
+                            % (nonterminal, terminal_or_nonterminal)
+                        )
                     dfa_state.transitions[transition] = DFAPlan(next_dfa)
 
     _calculate_tree_traversal(rule_to_dfas)
